@@ -29,6 +29,10 @@ Rule == /\ Ev.res = "Ok"
                                    /\ \A i \in 1..Len(a.js) : Near14(Ev.cnts[i], a.js[i].cnt, 64 - 44)
              \* H2PE (Hypergeometric), region 1: the value returned for the anchor's first word is the table's, and the accepting second
              \* words are a prefix of relative length f(y)/f(m), f the hypergeometric pmf (2^-22: the code's final test uses Stirling's ln v!)
+             \* H2PE tails (regions 2 / 3): the second words returning the table's value after the anchor's first word form the documented interval (2^-22)
+             [] Ev.op = "h2pet" -> LET a == HTab[Ev.case].rt[Ev.k] IN
+                                   /\ Ev.probe_ok
+                                   /\ Near14(Ev.lo, a.lo, 64 - 22) /\ Near14(Ev.hi, a.hi, 64 - 22)
              [] Ev.op = "h2pe1" -> LET a == HTab[Ev.case].r1[Ev.k] IN
                                    /\ Ev.accepted_at_zero /\ Ev.out = a.out
                                    /\ Near14(Ev.T, a.frac, 64 - 22)
